@@ -126,16 +126,17 @@ var stemRE = regexp.MustCompile(`~\d+$`)
 func oblStem(name string) string { return stemRE.ReplaceAllString(name, "") }
 
 type oblReport struct {
-	Name   string  `json:"name"`
-	Kind   string  `json:"kind"`
-	Unit   string  `json:"unit"`
-	Pos    string  `json:"pos"`
-	Text   string  `json:"clause"`
-	Result string  `json:"result"`
-	Solver string  `json:"solver"`
-	Time   float64 `json:"solver_s"`
-	Size   int     `json:"smt_bytes"`
-	Status string  `json:"status"`
+	Name    string   `json:"name"`
+	Kind    string   `json:"kind"`
+	Unit    string   `json:"unit"`
+	Pos     string   `json:"pos"`
+	Text    string   `json:"clause"`
+	Result  string   `json:"result"`
+	Solver  string   `json:"solver"`
+	Time    float64  `json:"solver_s"`
+	Size    int      `json:"smt_bytes"`
+	Status  string   `json:"status"`
+	Brittle []string `json:"unstable_under_seeds,omitempty"`
 }
 
 func loadKnown(verif string) []KnownFinding {
@@ -378,7 +379,7 @@ func report(o *options, p *Prog, db *ContractDB, units []*Unit, known []KnownFin
 		for _, ob := range u.Obls {
 			seen[ob.Name] = true
 			seenStem[oblStem(ob.Name)] = true
-			r := oblReport{Name: ob.Name, Kind: ob.Kind, Unit: u.Name, Pos: ob.Pos, Text: ob.Text, Result: ob.Result, Solver: ob.Solver, Time: ob.Time, Size: ob.SMTSize}
+			r := oblReport{Name: ob.Name, Kind: ob.Kind, Unit: u.Name, Pos: ob.Pos, Text: ob.Text, Result: ob.Result, Solver: ob.Solver, Time: ob.Time, Size: ob.SMTSize, Brittle: ob.Brittle}
 			solverTime += ob.Time
 			if ob.MustSat {
 				nVac++
